@@ -14,6 +14,10 @@ var rtScenario = scenarioDef{"RT", 1, genRTConfig, RunRT}
 
 func plan(prop string) []scenarioDef {
 	switch prop {
+	case "C02":
+		return []scenarioDef{{"NET-blockproof", 1, genProofConfig, RunNet}}
+	case "C18":
+		return []scenarioDef{{"UNIT-leader", 1, genLeaderConfig, RunLeaderUnit}}
 	case "C05":
 		return []scenarioDef{{"NET-liveness", 1, genLivenessConfig, RunNet}}
 	case "C12", "C13":
